@@ -281,6 +281,13 @@ def slice_iter_next_back(I, itp):
 
 
 # ------------------------------------------------------------------ generic iterator protocol over model iterators
+def _range_ty(a, b):
+    """element type of a Range<uN> from the width of a symbolic bound (concrete bounds: usize)"""
+    for v in (a, b):
+        if is_sym(v): return {8: "u8", 16: "u16", 32: "u32", 64: "usize", 128: "u128"}[v.size()]
+    return "usize"
+
+
 def it_next(I, itp):
     """advance a model iterator behind pointer itp; returns Option"""
     it = I.deref(itp)
@@ -380,8 +387,9 @@ def it_next(I, itp):
         return it_next(I, Ptr(Cell(it), (1,)))
     if t == "Range":
         a, b = it.f
-        if I.W.branch(I.binop("Lt", a, b, "usize")):
-            it.f[0] = I.binop("Add", a, 1, "usize")
+        ty = _range_ty(a, b)
+        if I.W.branch(I.binop("Lt", a, b, ty)):
+            it.f[0] = I.binop("Add", a, 1, ty)
             return some(a)
         return none()
     if t == "RangeFrom":
@@ -427,8 +435,9 @@ def it_next_back(I, itp):
         return some(I.clone_generic(I.deref(r.f[0])))
     if t == "Range":
         a, b = it.f
-        if I.W.branch(I.binop("Lt", a, b, "usize")):
-            it.f[1] = I.binop("Sub", b, 1, "usize")
+        ty = _range_ty(a, b)
+        if I.W.branch(I.binop("Lt", a, b, ty)):
+            it.f[1] = I.binop("Sub", b, 1, ty)
             return some(it.f[1])
         return none()
     f = I.P.lookup(f"<{t} as DoubleEndedIterator>::next_back")
@@ -1184,3 +1193,15 @@ def _join(I, s, sep):
         if i: out += sp
         out += list(as_str(I, x).items())
     return VecObj(out, "String")
+
+
+# ------------------------------------------------------------------ ucd-trie (not in the MIR): a trie is identified by the token the
+# caller put into the BY_NAME table (lib/props/c16.py); membership is the compiled property function's set
+@summary("TrieSetSlice::contains_char", "ucd_trie::TrieSetSlice::contains_char", "TrieSet::contains_char")
+def _(I, t, c):
+    tok = I.deref(t)
+    for _ in range(3):
+        if type(tok) is Agg and tok.ty == "TrieToken": break
+        tok = I.deref(tok)
+    if not (type(tok) is Agg and tok.ty == "TrieToken"): raise Unsupported("contains_char on an unknown trie")
+    return I.unicode_property(tok.f[0], c, via="table")
